@@ -754,6 +754,13 @@ class PTable(EngineBase):
                 return "ambiguous"
             st["handles"].append(Handle(obj, pid, cur.inc, idx, st["steps"]))
             st["probe"]("popen_handle")
+            if cur.releasing:
+                # the child was already half gone (every file below
+                # /proc/<pid> ENOENT) when Popen looked: psutil.Popen ignores
+                # NoSuchProcess there and the object is built without a start
+                # time, like one built while stat was unreadable (KF-C02-2)
+                st["handles"][-1].blind = True
+                st["probe"]("popen_built_while_child_half_gone")
             return "handle"
         if kind == "new_bad":
             return psutil.Process(op["pid"])
